@@ -1,6 +1,6 @@
 """C13 - the next-run text names the earliest upcoming run of the schedule."""
 
-from datetime import datetime, timezone
+from datetime import datetime, timedelta, timezone
 from itertools import combinations
 
 from .. import env
@@ -154,6 +154,35 @@ class C13(Prop):
                 if not (got[0] == want[0] and (want[0] != "next" or got[1] == want[1])):
                     acc.violation(f"display-wrong:{want[0]}->{got[0]}", f"SwitcherSchedule.display {sch.display!r}, want {want}",
                                   {"start": start, "days": sorted(days), "got": sch.display})
+            # ... and through a listing parsed from a device reply: one-time records (no days) dated yesterday, today, tomorrow,
+            # next week; recurring ones with any day set
+            recs = []
+            for k2, day_off in enumerate((0, 1, -1, 7, 2, 0)):
+                sm = r.choice(grid)
+                mask = 0 if k2 < 4 else sum(2 << d for d in r.choice(ALL_SETS))
+                eps = clock.epochs_of(zone, (loc + timedelta(days=day_off)).date(), sm // 60, sm % 60)
+                if not eps:
+                    continue
+                recs.append((k2, mask, eps[0], sm))
+            try:
+                listed = {s_.schedule_id: s_ for s_ in self.parser.get_schedules(_rp.schedules([_rp.schedule_record(k2, mask, e0, e0 + 1800) for k2, mask, e0, _ in recs]))}
+            except Exception as exc:
+                acc.violation("raised", f"parsing a listing of {len(recs)} records raised {type(exc).__name__}: {exc}", {"zone": zone, "now": now})
+                listed = {}
+            for k2, mask, e0, sm in recs:
+                s_ = listed.get(str(k2))
+                if s_ is None:
+                    continue
+                acc.ev()
+                acc.count("displays_of_listed_schedules")
+                start = f"{sm // 60:02d}:{sm % 60:02d}"
+                days = {d for d in range(7) if mask & (2 << d)}
+                want = clock.next_run(wd, now_min, sm, days)
+                got = clock.classify_text(s_.display, start)
+                if not (got[0] == want[0] and (want[0] != "next" or got[1] == want[1])):
+                    acc.violation(f"display-wrong:{want[0]}->{got[0]}:listed", f"{zone}: listed schedule (days {sorted(days)}, start {start}, record dated "
+                                  f"{clock.local(zone, e0).date()}, today is {loc.date()}) displays {s_.display!r}, want {want[0]}",
+                                  {"start": start, "days": sorted(days), "got": s_.display, "zone": zone, "now": now})
         differs = wd != utc.weekday()
         near_midnight = now_min < 120 or now_min >= 1320
         if differs or near_midnight:
